@@ -42,6 +42,7 @@ impl CountVectorizerValidParams {
         &self,
         x: &ArrayBase<D, Ix1>,
     ) -> Result<CountVectorizer> {
+        self.validate_deserialization()?;
         // word, (integer mapping for word, document frequency for word)
         let mut vocabulary: HashMap<String, (usize, usize)> = HashMap::new();
         for string in x.iter().map(|s| transform_string(s.to_string(), self)) {
@@ -78,6 +79,7 @@ impl CountVectorizerValidParams {
         encoding: EncodingRef,
         trap: DecoderTrap,
     ) -> Result<CountVectorizer> {
+        self.validate_deserialization()?;
         // word, (integer mapping for word, document frequency for word)
         let mut vocabulary: HashMap<String, (usize, usize)> = HashMap::new();
         let documents_count = input.len();
@@ -127,6 +129,15 @@ impl CountVectorizerValidParams {
     /// optional stopwords test.
     /// The total number of documents is needed to convert from relative document frequencies to
     /// their absolute counterparts.
+    /// A parameter set that was configured with a tokenizer *function* loses the function pointer when it is
+    /// deserialised (the field is skipped); fitting must not silently fall back to the regex tokenizer.
+    fn validate_deserialization(&self) -> Result<()> {
+        if self.tokenizer_function().is_none() && self.tokenizer_deserialization_guard {
+            return Err(PreprocessingError::TokenizerNotSet);
+        }
+        Ok(())
+    }
+
     fn filter_vocabulary(
         &self,
         vocabulary: HashMap<String, (usize, usize)>,
